@@ -195,6 +195,14 @@ def run_kani(names, timeout_s, jobs=8, unwind=None, extra_cbmc=(), target="kani-
         timed_out = True
         subprocess.run(["pkill", "-x", "cbmc"])
     wall = time.time() - t0
+    # the per-harness goto binaries are 40-80 MB each: remove them, keep the compiled dependencies
+    import glob
+    for f in glob.glob(os.path.join(WORK, target, "kani", "*", "debug", "build", "crustabri-verif", "*", "out", "*.out")) + \
+            glob.glob(os.path.join(WORK, target, "kani", "*", "debug", "build", "crustabri-verif", "*", "out", "*.json")):
+        try:
+            os.remove(f)
+        except OSError:
+            pass
     log = os.path.join(WORK, "last_%s.log" % target)
     with open(log, "w") as f:
         f.write(" ".join(cmd) + "\n" + out)
